@@ -873,6 +873,15 @@ fn grid(cfg: &Config, known: &[Known]) -> Vec<Scn> {
             }
         }
     }
+    // the pull parser far beyond 10^6 levels: past 2^21 (thorough: 2^22) states on its heap stack
+    for shape in ["seq", "expkey", "alt"] {
+        for api in ["iter@256k", "peeknext@256k"] {
+            v.push(Scn { shape: shape.into(), depth: (1 << 21) + 5 + r.usize(3), api: api.into() });
+            if thorough {
+                v.push(Scn { shape: shape.into(), depth: (1 << 22) + 5, api: api.into() });
+            }
+        }
+    }
     // every token of the YAML token alphabet, and every ordered pair, repeated: the pull parser
     // must be constant-stack whatever is repeated
     let nt = crate::gen::TOKENS.len();
